@@ -1872,8 +1872,8 @@ def string_to_type(string):
 # Lower order types are converted to first order type when performing operation
 # across multiple types (e.g. datetime.date(2019,1,1) == "2019-01-01")
 INTERNAL_TYPE_ORDER = [
-    float,
     int,
+    float,
     str,
     bool,
     datetime.datetime,
